@@ -288,3 +288,27 @@ PLANS["C10"] = {
                 need("runtime_failures", 20000), need("runtime_probes", 50000), need_set("failure_kinds", 26), need_set("open_structures", 60),
                 need_set("probe_kinds", 19), need("repl_twin_sessions_compared", 60), need("repl_runtime_sessions_checked", 20)],
 }
+
+PLANS["C11"] = {
+    "jobs": {
+        "quick": [("", "release", 300000), ("", "dev", 30000)],
+        "thorough": [("", "release", 12000000), ("", "dev", 1200000)],
+    },
+    "rule": "6 of 8 cases: a constant expression e (arithmetic and stack words, multi-valued, vectors, strings, maps and bit-strings, "
+            "words defined and used inside the block, const definitions, nested blocks; also expressions that fail) is placed as "
+            "#( e #) at one of 9 positions (top level, vector, map value, tag value, definition, definition inside a vector, inside "
+            "another meta block, if branch, loop body) in a program with 4 kinds of surrounding stack/variables and 5 kinds of "
+            "follow-up code; the same program with the block replaced by the literal value(s) that e yields under ordinary evaluation "
+            "(last result first; original order directly inside another block) must give the same observation through eval and "
+            "compile+run; words defined inside must not be callable afterwards. 1 of 8: one of 17 blocks that try to read or change "
+            "the surrounding stack or a variable, in 3 wrappers: must be rejected and leave stack and variables unchanged. 1 of 8: "
+            "hook invariants - compile() of a whole G1/G2 program leaves data stack, existing variables and output untouched; compiling "
+            "a single block adds exactly one code cell per result and only its constants to the dictionary. distinct = distinct "
+            "(position, expression, surroundings)",
+    "assumptions": ["expressions avoid words that read variables (byte order, input cursor): meta mode refuses those by design",
+                    "a block nested directly inside another block shares its parent's stack, so its results keep their order (pinned "
+                    "by state::tests::test_meta_meta); everywhere else results are inlined last result first"],
+    "require": [need("pairs_equal", 150000), need("failing_blocks_rejected", 300), need("purge_checks", 20000), need("sealing_probes_rejected", 20000),
+                need("compile_invariants_checked", 10000), need("block_hook_invariants_checked", 10000), need_set("positions", 9),
+                need_set("expr_classes", 11), need_set("sealing_kinds", 17), need_set("result_counts", 4)],
+}
